@@ -258,6 +258,12 @@ def matching():
     t.append(T('matche_same', [MATCH('matche', lst, (LI([h], tl), [EQ(q, h)]), (LI([ANY, h], tl), [EQ(q, h)]))], 'multiset'))
     t.append(T('matcha_first_arm', [FRESH(['x'], OP('conde', EQ(x, P(0)), EQ(x, L(P(1)))), MATCH('matcha', x, (L(h), [EQ(q, h)]), (ANY, [EQ(q, x)])))], 'multiset'))
     t.append(T('matcha_commit_then_fail', [FRESH(['x'], EQ(x, P(0)), MATCH('matcha', x, (a, [NE(a, P(1)), EQ(q, a)]), (ANY, [EQ(q, P(2))])))], 'multiset'))
+    l = V('l')
+    t.append(T('match_scrutinee_shadowed', [FRESH(['l'], EQ(l, L(P(0), P(1), P(2))), MATCH('match', l, (LI([h], l), [EQ(q, L(h, l))])))], 'multiset'))
+    t.append(T('match_swap_shadow', [FRESH(['x', 'y'], EQ(x, P(0)), EQ(y, P(1)), MATCH('match', L(x, y), (L(y, x), [EQ(q, L(x, y))])))], 'multiset'))
+    t.append(T('matche_scrutinee_shadowed', [FRESH(['l'], EQ(l, L(P(0), P(1))), MATCH('matche', l, (LI([ANY], l), [EQ(q, l)]), (NIL, [EQ(q, P(2))])))], 'multiset'))
+    t.append(T('matcha_scrutinee_shadowed', [FRESH(['l', 'x'], EQ(l, L(P(0), P(1))), EQ(x, P(2)), MATCH('matcha', L(l, x), (L(LI([x], l), ANY), [EQ(q, L(x, l))]), (ANY, [EQ(q, P(2))])))], 'multiset'))
+    t.append(T('match_nested_improper_pattern', [MATCH('match', L(P(0), P(1), P(2)), (LI([a], LI([b], tl)), [EQ(q, L(tl, b, a))]))], 'multiset'))
     t.append(T('matchu_first_only', [FRESH(['x'], EQ(x, L(P(0), P(1))), MATCH('matchu', x, (LI([h], ANY), [EQ(q, h)]), (LI([ANY, h], ANY), [EQ(q, h)])))], 'multiset'))
     return t
 
@@ -265,7 +271,7 @@ def matching():
 def syntax_forms():
     """Term and clause syntax (C14) and scoping of fresh variables (C15)."""
     t = []
-    a = V('a')
+    a, b, l = V('a'), V('b'), V('l')
     t.append(T('syn_literals', [OP('conde', EQ(q, ('bool', True)), EQ(q, ('str', 'a')), EQ(q, N(-7)), EQ(q, NIL), EQ(q, L(N(1), ('str', 'b'), ('bool', False))))], 'multiset'))
     t.append(T('syn_improper', [FRESH(['x', 'y'], EQ(LI([x, P(0)], y), L(P(1), P(0), P(2))), EQ(q, LI([y], x)))], 'multiset'))
     t.append(T('syn_nested_lists', [FRESH(['x'], EQ(q, L(L(x), L(L(P(0)), x), LI([P(1)], L(x)))), EQ(x, P(2)))], 'multiset'))
@@ -279,6 +285,16 @@ def syntax_forms():
     t.append(T('syn_same_name_two_scopes', [FRESH(['a'], FRESH(['x'], EQ(x, P(0)), EQ(a, L(x))), FRESH(['x'], EQ(q, L(a, x))))], 'multiset'))
     t.append(T('syn_closure', [NE(q, P(0)), ('closure', [OP('conde', EQ(q, P(0)), EQ(q, P(1)))])], 'multiset'))
     t.append(T('syn_recursive_fresh', [FRESH(['x', 'y'], REL('append', x, y, L(P(0), P(1))), REL('append', y, x, q))], 'multiset'))
+    t.append(T('syn_improper_in_tail', [FRESH(['x'], EQ(q, LI([P(0)], LI([P(1)], x))), OP('conde', EQ(x, L(P(2))), EQ(x, P(2))))], 'multiset'))
+    t.append(T('syn_improper_in_tail_unify', [FRESH(['a', 'b', 'r'], EQ(L(P(0), P(1), P(2)), LI([a], LI([b], V('r')))), EQ(q, L(V('r'), b, a)))], 'multiset'))
+    t.append(T('syn_improper_tail_any', [EQ(LI([P(0)], LI([P(1)], ANY)), L(P(0), P(1), P(2))), EQ(q, P(0))], 'multiset'))
+    t.append(T('syn_proper_in_tail', [FRESH(['x'], EQ(q, LI([P(0)], L(P(1), x))), EQ(x, L(P(2))))], 'multiset'))
+    t.append(T('syn_false_direct_in_operator', [OP('conde', FALSE, EQ(q, P(0)), [FALSE, EQ(q, P(1))], [EQ(q, P(2)), FALSE])], 'multiset'))
+    t.append(T('syn_true_direct_in_operator', [OP('conde', TRUE, [TRUE, EQ(q, P(0))], FALSE)], 'multiset'))
+    t.append(T('syn_false_in_onceo_conda', [OP('conde', [('onceo', [FALSE]), EQ(q, P(0))], [OP('conda', FALSE, [TRUE, EQ(q, P(1))])], [OP('condu', [FALSE, EQ(q, P(0))], EQ(q, P(2)))])], 'multiset'))
+    t.append(T('syn_match_scrutinee_shadowed', [FRESH(['l'], EQ(l, L(P(0), P(1))), MATCH('match', l, (LI([a], l), [EQ(q, L(a, l))])))], 'multiset'))
+    t.append(T('syn_twice_closure_fresh', [FRESH(['a', 'b'], EQ(q, L(a, b)), ('twice', REL('pick', a, b, P(0), P(1))))], 'multiset', 40))
+    t.append(T('syn_two_invocations', [FRESH(['a', 'b'], EQ(q, L(a, b)), REL('pick', a, b, P(0), P(1)), REL('pick', a, b, P(0), P(1)))], 'multiset', 40))
     t.append(T('syn_pairs', [FRESH(['x', 'y', 'z'], EQ(z, ('pair', x, P(0))), EQ(z, ('pair', P(1), y)), EQ(q, ('pair', y, x)))], 'multiset'))
     return t
 
@@ -375,6 +391,16 @@ def finite_domains():
     t.append(T('fd_domain_intersection', [FRESH(['x'], EQ(q, x), INFDR(x, -3, 1), INFD(x, [-4, -1, 1, 2]), REL('diseqfd', x, P(0)))], 'multiset', 40))
     t.append(T('fd_eq_number', [FRESH(['x', 'y'], EQ(q, L(x, y)), INFDR(L(x, y), -2, 2), REL('plusfd', x, y, N(1)), EQ(x, P(0)))], 'multiset', 40))
     t.append(T('fd_conde_domains', [FRESH(['x'], EQ(q, x), OP('conde', INFDR(x, 0, 1), INFD(x, [1, 5])), REL('ltefd', P(0), x))], 'multiset', 40))
+    t.append(T('fd_distinct_bound_posted_last', [FRESH(['x', 'y'], EQ(x, P(0)), EQ(y, P(1)), EQ(q, L(x, y)), REL('distinctfd', L(x, y)))], 'multiset', 40))
+    t.append(T('fd_distinct_partly_bound_last', [FRESH(['x', 'y', 'z'], EQ(x, P(0)), EQ(z, P(1)), EQ(q, xyz), INFD(y, [0, 5]), REL('distinctfd', xyz))], 'multiset', 40))
+    t.append(T('fd_constraints_posted_last', [FRESH(['x', 'y', 'z'], EQ(x, P(0)), EQ(y, P(1)), EQ(z, P(2)), EQ(q, xyz), OP('conde', REL('ltfd', x, y), REL('plusfd', x, y, z), REL('diseqfd', y, z), REL('timesfd', x, y, z)))], 'multiset', 40))
+    t.append(T('fd_extension_chain_value', [FRESH(['x', 'y'], EQ(q, L(x, y)), INFD(x, [1, 2]), EQ(L(x, y), L(y, P(0))))], 'multiset', 40))
+    t.append(T('fd_extension_chain_value_rev', [FRESH(['x', 'y'], EQ(q, L(x, y)), INFD(x, [1, 2]), EQ(L(y, x), L(P(0), y)))], 'multiset', 40))
+    t.append(T('fd_extension_chain_domains', [FRESH(['x', 'y', 'z'], EQ(q, xyz), INFD(x, [1, 2]), INFD(z, [2, 3]), EQ(L(x, y), L(y, z)))], 'multiset', 40))
+    t.append(T('fd_extension_chain_disjoint', [FRESH(['x', 'y', 'z'], EQ(q, xyz), INFD(x, [1, 2]), INFD(z, [3, 4]), EQ(L(x, y), L(y, z)))], 'multiset', 40))
+    t.append(T('fd_sparse_then_interval', [FRESH(['x'], EQ(q, x), INFD(x, [1, 3, 5]), INFDR(x, 2, 4))], 'multiset', 40))
+    t.append(T('fd_interval_then_sparse', [FRESH(['x'], EQ(q, x), INFDR(x, 2, 4), INFD(x, [1, 3, 5]))], 'multiset', 40))
+    t.append(T('fd_sparse_interval_unified', [FRESH(['x', 'y'], EQ(q, L(x, y)), INFD(x, [1, 3, 5]), INFDR(y, 2, 4), OP('conde', EQ(x, y), EQ(y, x)))], 'multiset', 40))
     t.append(T('fd_list_query', [FRESH(['x', 'y'], EQ(q, L(L(x), y)), INFDR(L(x, y), 0, 1), REL('diseqfd', x, y))], 'multiset', 40))
     return t
 
@@ -423,12 +449,23 @@ def permutations_family(max_perms=6):
         ('pc', ['x', 'y'], [EQ(q, L(x, y)), INFDR(L(x, y), -1, 2), REL('plusfd', x, y, P(0)), REL('ltefd', x, y)]),
         ('pd', ['x', 'y'], [EQ(q, L(x, y)), INFD(x, [0, 1, 3]), INFDR(y, 0, 3), REL('diseqfd', x, y), EQ(y, P(0))]),
         ('pe', ['x', 'y'], [EQ(q, L(x, y)), REL('member', x, L(P(0), P(1))), REL('member', y, L(P(1), P(2))), NE(x, y)]),
+        ('pf', ['x', 'y'], [EQ(q, L(x, y)), NE(L(x, y), L(y, P(0))), EQ(x, P(1)), OP('conde', EQ(y, P(0)), EQ(y, P(1)))]),
+        ('pg', ['x', 'y'], [EQ(q, L(x, y)), INFD(x, [1, 3, 5]), INFDR(y, 2, 4), EQ(x, y)]),
+        ('ph', ['x'], [EQ(q, x), INFD(x, [1, 3, 5]), INFDR(x, 2, 4)]),
+        ('pi', ['x', 'y'], [EQ(q, L(x, y)), EQ(x, P(0)), EQ(y, P(1)), REL('distinctfd', L(x, y))]),
+        ('pj', ['x', 'y'], [EQ(q, L(x, y)), INFD(x, [1, 2]), EQ(L(x, y), L(y, P(0)))]),
+        ('pk', ['x', 'y'], [EQ(q, L(x, y)), EQ(x, P(0)), EQ(y, P(1)), REL('ltfd', x, y), REL('diseqfd', x, P(2))]),
     ]
     for name, vs, goals in bases:
         base = [FRESH(vs, *goals)]
         perms = list(itertools.permutations(range(len(goals))))
-        step = max(1, len(perms) // max_perms)
-        for i, pm in enumerate(perms[::step][:max_perms]):
+        n = len(goals)
+        chosen = []
+        # identity, reverse and all rotations first (every goal is posted first and last at least once), then an even sample
+        for pm in [tuple(range(n)), tuple(reversed(range(n)))] + [tuple((i + r) % n for i in range(n)) for r in range(1, n)] + perms[::max(1, len(perms) // max_perms)]:
+            if pm not in chosen:
+                chosen.append(pm)
+        for i, pm in enumerate(chosen[:max(max_perms, n + 1)] if max_perms < len(perms) else perms):
             t.append(T('perm_%s_c%d' % (name, i), [FRESH(vs, *[goals[j] for j in pm])], 'multiset', 40, ref_prog=base))
     dis = [
         ('da', [[EQ(q, P(0))], [EQ(q, P(1)), NE(q, P(0))], [FRESH(['x'], EQ(q, L(x)), NE(x, P(2)))]]),
